@@ -117,6 +117,8 @@ impl Expr {
         where
             F: FnMut(Expr) -> Expr,
         {
+            #[cfg(pest_parser_pest_verif)]
+            crate::optimizer::verif::step();
             let expr = f(expr);
 
             match expr {
@@ -191,6 +193,8 @@ impl Expr {
         where
             F: FnMut(Expr) -> Expr,
         {
+            #[cfg(pest_parser_pest_verif)]
+            crate::optimizer::verif::step();
             let mapped = match expr {
                 Expr::PosPred(expr) => {
                     let mapped = Box::new(map_internal(*expr, f));
@@ -389,6 +393,8 @@ impl Iterator for ExprTopDownIterator {
     type Item = Expr;
 
     fn next(&mut self) -> Option<Self::Item> {
+        #[cfg(pest_parser_pest_verif)]
+        crate::optimizer::verif::step();
         let result = self.current.take();
 
         if let Some(expr) = self.next.take() {
